@@ -1,13 +1,20 @@
 import Heph.Proofs.DiagLine
 /-! The crash tests on rendered output: a batch of well-formed items never looks like a crash,
-and an appended stack trace always does (all four compilers). -/
+and an appended stack trace always does (all four compilers; for javac both variants of the
+crash pattern, see `JavaCrashVariant`). -/
 namespace Heph.Diag
 
-theorem crashSearch_unlines (c : Compiler) (ls : List (List Char)) (rest : List Char) :
-    crashSearch c (unlines ls ++ rest)
-      = (ls.any (fun l => crashSearch c (l ++ ['\n'])) || crashSearch c rest) := by
+/-! ## one-line patterns (everything except the repaired javac pattern) -/
+
+theorem crashSearchV_unlines (v : JavaCrashVariant) (c : Compiler)
+    (hcv : ¬ (c = .javac ∧ v = .framed)) (ls : List (List Char)) (rest : List Char) :
+    crashSearchV v c (unlines ls ++ rest)
+      = (ls.any (fun l => crashSearchV v c (l ++ ['\n'])) || crashSearchV v c rest) := by
   cases c with
-  | javac => exact searchThenNl_unlines _ (by decide) ls rest
+  | javac =>
+    cases v with
+    | asis => exact searchThenNl_unlines _ (by decide) ls rest
+    | framed => exact absurd ⟨rfl, rfl⟩ hcv
   | kotlinc => exact searchThenNl_unlines _ (by decide) ls rest
   | groovyc => exact searchW_unlines _ (by decide) (by decide) ls rest
   | scalac => exact searchW_unlines _ (by decide) (by decide) ls rest
@@ -17,21 +24,175 @@ theorem stackOverflowSearch_unlines (ls : List (List Char)) (rest : List Char) :
       = (ls.any (fun l => stackOverflowSearch (l ++ ['\n'])) || stackOverflowSearch rest) :=
   searchW_unlines _ (by decide) (by decide) ls rest
 
-theorem crashSearch_nil (c : Compiler) : crashSearch c [] = false := by
-  cases c <;> rfl
+theorem crashSearchV_nil (v : JavaCrashVariant) (c : Compiler) : crashSearchV v c [] = false := by
+  cases c <;> cases v <;> rfl
 
-theorem lineCrash_false {c : Compiler} {l : List Char} (h : lineCrash c l = false) :
-    crashSearch c (l ++ ['\n']) = false ∧
-      (c = .groovyc → stackOverflowSearch (l ++ ['\n']) = false) := by
-  unfold lineCrash at h
-  simp only [Bool.or_eq_false_iff, Bool.and_eq_false_iff] at h
-  refine ⟨h.1, fun hc => ?_⟩
-  rcases h.2 with h2 | h2
-  · subst hc; simp at h2
-  · exact h2
+theorem crashSearch_nil (c : Compiler) : crashSearch c [] = false := crashSearchV_nil _ c
+
+/-! ## the repaired javac pattern `(java\.lang.*)\n([ \t]+at .*)` -/
+
+theorem dropWhile_append_stop (p : Char → Bool) (l : List Char) (x : Char) (X : List Char)
+    (hx : p x = false) : (l ++ x :: X).dropWhile p = l.dropWhile p ++ x :: X := by
+  induction l with
+  | nil => simp [List.dropWhile_cons, hx]
+  | cons c cs ih =>
+    simp only [List.cons_append, List.dropWhile_cons]
+    split
+    · exact ih
+    · rfl
+
+/-- whether a line is a frame line does not depend on what follows its newline -/
+theorem frameLine_line (l X : List Char) : frameLine (l ++ '\n' :: X) = frameLine l := by
+  cases l with
+  | nil => simp [frameLine, isBlank]
+  | cons c cs =>
+    have h1 := dropWhile_append_stop isBlank (c :: cs) '\n' X (by decide)
+    simp only [List.cons_append] at h1
+    simp only [frameLine, List.cons_append, h1]
+    have h2 := isPrefixOf_local "at ".toList (by decide) ((c :: cs).dropWhile isBlank) X
+    rw [h2, isPrefixOf_snoc_nl _ (by decide)]
+
+theorem frameLine_unlines (ls : List (List Char)) :
+    frameLine (unlines ls) = (match ls with
+      | [] => false
+      | l :: _ => frameLine l) := by
+  cases ls with
+  | nil => rfl
+  | cons l ls => rw [unlines_cons, frameLine_line]
+
+theorem hasInfix_nil_of_ne (pat : List Char) (hne : pat ≠ []) : hasInfix pat [] = false := by
+  cases pat with
+  | nil => exact absurd rfl hne
+  | cons _ _ => rfl
+
+/-- the literal inside a line `t`, then the newline, then a frame line -/
+theorem searchThenFrame_line (pat : List Char) (hne : pat ≠ []) (hnl : '\n' ∉ pat)
+    (t R : List Char) (ht : '\n' ∉ t) :
+    searchThenFrame pat (t ++ '\n' :: R)
+      = ((hasInfix pat t && frameLine R) || searchThenFrame pat R) := by
+  induction t with
+  | nil =>
+    have h0 : pat.isPrefixOf ('\n' :: R) = false := by
+      cases pat with
+      | nil => exact absurd rfl hne
+      | cons x xs =>
+        have : x ≠ '\n' := fun h => hnl (by simp [h])
+        simp [List.isPrefixOf, this]
+    simp [searchThenFrame, h0, hasInfix_nil_of_ne pat hne]
+  | cons c cs ih =>
+    have hcs : '\n' ∉ cs := fun h => ht (by simp [h])
+    have ha : afterLine (c :: (cs ++ '\n' :: R)) = '\n' :: R := by
+      have := afterLine_append_nl (c :: cs) R ht
+      simpa using this
+    have hp : pat.isPrefixOf (c :: (cs ++ '\n' :: R)) = pat.isPrefixOf (c :: cs) := by
+      have := isPrefixOf_local pat hnl (c :: cs) R
+      simp only [List.cons_append] at this
+      rw [this]
+      have := isPrefixOf_snoc_nl pat hnl (c :: cs)
+      simpa using this
+    simp only [List.cons_append, searchThenFrame, ha, hp, ih hcs, hasInfix]
+    cases pat.isPrefixOf (c :: cs) <;> cases hasInfix pat cs <;> cases frameLine R <;> simp
+
+/-- exact: on newline-terminated lines the repaired pattern fires iff a line that contains
+`java.lang` is directly followed by a frame line -/
+theorem searchThenFrame_unlines (ls : List (List Char)) (h : ∀ l ∈ ls, '\n' ∉ l) :
+    searchThenFrame "java.lang".toList (unlines ls) = framePairs ls := by
+  induction ls with
+  | nil => rfl
+  | cons l ls ih =>
+    have hl := h l (by simp)
+    have ih' := ih (fun x hx => h x (by simp [hx]))
+    rw [unlines_cons, searchThenFrame_line _ (by decide) (by decide) l _ hl, ih', frameLine_unlines]
+    cases ls with
+    | nil => simp [framePairs]
+    | cons l2 rest => simp [framePairs]
+
+theorem framePairs_false_of_noFrame (ls : List (List Char)) (h : ∀ l ∈ ls, frameLine l = false) :
+    framePairs ls = false := by
+  induction ls with
+  | nil => rfl
+  | cons l ls ih =>
+    cases ls with
+    | nil => rfl
+    | cons l2 rest =>
+      simp only [framePairs, h l2 (by simp), Bool.and_false, Bool.false_or]
+      exact ih (fun x hx => h x (by simp [hx]))
+
+theorem framePairs_false_of_noMarker (ls : List (List Char))
+    (h : ∀ l ∈ ls, hasInfix "java.lang".toList l = false) : framePairs ls = false := by
+  induction ls with
+  | nil => rfl
+  | cons l ls ih =>
+    cases ls with
+    | nil => rfl
+    | cons l2 rest =>
+      simp only [framePairs, h l (by simp), Bool.false_and, Bool.false_or]
+      exact ih (fun x hx => h x (by simp [hx]))
+
+/-! ## searching is monotone in what is put in front -/
+
+theorem searchThenNl_mono (pat pre rest : List Char) (h : searchThenNl pat rest = true) :
+    searchThenNl pat (pre ++ rest) = true := by
+  induction pre with
+  | nil => exact h
+  | cons c cs ih => simp [searchThenNl, ih]
+
+theorem searchThenFrame_mono (pat pre rest : List Char) (h : searchThenFrame pat rest = true) :
+    searchThenFrame pat (pre ++ rest) = true := by
+  induction pre with
+  | nil => exact h
+  | cons c cs ih => simp [searchThenFrame, ih]
+
+theorem searchW_mono (pat : List (Option Char)) (pre rest : List Char) (h : searchW pat rest = true) :
+    searchW pat (pre ++ rest) = true := by
+  induction pre with
+  | nil => exact h
+  | cons c cs ih => simp [searchW, ih]
+
+theorem crashSearchV_mono (v : JavaCrashVariant) (c : Compiler) (pre rest : List Char)
+    (h : crashSearchV v c rest = true) : crashSearchV v c (pre ++ rest) = true := by
+  cases c with
+  | javac =>
+    cases v with
+    | asis => exact searchThenNl_mono _ pre rest h
+    | framed => exact searchThenFrame_mono _ pre rest h
+  | kotlinc => exact searchThenNl_mono _ pre rest h
+  | groovyc => exact searchW_mono _ pre rest h
+  | scalac => exact searchW_mono _ pre rest h
+
+/-! ## lines of well-formed items -/
+
+theorem lineCrashV_false_search (v : JavaCrashVariant) (c : Compiler)
+    (hcv : ¬ (c = .javac ∧ v = .framed)) (l : List Char) (h : lineCrashV v c l = false) :
+    crashSearchV v c (l ++ ['\n']) = false := by
+  cases c <;> cases v <;> simp only [lineCrashV, Bool.or_eq_false_iff] at h
+  · exact h.1
+  · exact absurd ⟨rfl, rfl⟩ hcv
+  all_goals exact h.1
+
+theorem lineCrashV_groovy_so (v : JavaCrashVariant) (l : List Char)
+    (h : lineCrashV v .groovyc l = false) : stackOverflowSearch (l ++ ['\n']) = false := by
+  cases v <;> simp only [lineCrashV, Bool.or_eq_false_iff] at h <;> simpa using h.2
+
+/-- lines on which the per-line clause holds never look like a crash -/
+theorem crashSearchV_lines_false (v : JavaCrashVariant) (c : Compiler) (ls : List (List Char))
+    (hnl : c = .javac → ∀ l ∈ ls, '\n' ∉ l) (h : ∀ l ∈ ls, lineCrashV v c l = false) :
+    crashSearchV v c (unlines ls) = false := by
+  by_cases hcv : c = .javac ∧ v = .framed
+  · obtain ⟨hc, hv⟩ := hcv
+    subst hc; subst hv
+    show searchThenFrame "java.lang".toList (unlines ls) = false
+    rw [searchThenFrame_unlines ls (hnl rfl)]
+    exact framePairs_false_of_noFrame ls h
+  · have := crashSearchV_unlines v c hcv ls []
+    simp only [List.append_nil] at this
+    rw [this, crashSearchV_nil, Bool.or_false, List.any_eq_false]
+    intro l hl
+    simp [lineCrashV_false_search v c hcv l (h l hl)]
 
 theorem lineCrash_nil (c : Compiler) : lineCrash c [] = false := by
-  cases c <;> decide
+  unfold lineCrash
+  cases c <;> cases javaCrashVariant <;> decide
 
 /-- no line of a well-formed item fires a crash pattern -/
 theorem wf_lines_noCrash {c : Compiler} {i : Item} (h : wfItem c i = true) :
@@ -71,20 +232,59 @@ theorem wf_lines_noCrash {c : Compiler} {i : Item} (h : wfItem c i = true) :
     intro x hx
     exact (textOK_spec (h x hx)).2.2
 
+/-- the lines of a well-formed javac item contain no newline -/
+theorem wf_lines_nl_javac {i : Item} (h : wfItem .javac i = true) :
+    ∀ l ∈ itemLines .javac i, '\n' ∉ l := by
+  cases i with
+  | error f l col msg pad det =>
+    simp only [wfItem, Bool.and_eq_true, Bool.not_eq_true', detailOK, List.all_eq_true] at h
+    obtain ⟨⟨⟨⟨⟨hf, hl⟩, _⟩, hmsg⟩, _⟩, hdet⟩ := h
+    obtain ⟨stem, hf1, _, hf3⟩ := fileOK_split hf
+    obtain ⟨_, _, hlnl⟩ := digitsOK_spec hl
+    have hmsg' : '\n' ∉ msg := by simpa using hmsg
+    intro x hx
+    simp only [itemLines, List.mem_cons, List.mem_append] at hx
+    rcases hx with rfl | hx | hx
+    · simp only [errorHeader, hf1, ext, List.mem_append, List.mem_cons, not_or]
+      refine ⟨⟨fun hm => ?_, by decide, by decide⟩, by decide, ⟨hlnl, by decide⟩, hmsg'⟩
+      have := hf3 _ hm
+      rw [isClsJ_nl] at this; cases this
+    · exact (textOK_spec (hdet x hx)).1
+    · simp at hx
+  | warning f l col msg pad det =>
+    simp only [wfItem, Bool.and_eq_true, List.all_eq_true] at h
+    intro x hx
+    exact (textOK_spec (h.2 x hx)).1
+  | note t =>
+    simp only [wfItem] at h
+    intro x hx
+    simp only [itemLines, List.mem_cons, List.mem_nil_iff, or_false] at hx
+    subst hx
+    exact (textOK_spec h).1
+  | summary n =>
+    simp only [wfItem, List.all_eq_true] at h
+    intro x hx
+    exact (textOK_spec (h x hx)).1
+
 theorem any_false_of_forall {α} (l : List α) (p : α → Bool) (h : ∀ x ∈ l, p x = false) :
     l.any p = false := by
   simp only [List.any_eq_false]
   intro x hx; simp [h x hx]
 
-theorem crashSearch_render (c : Compiler) (is : List Item) (rest : List Char)
-    (h : ∀ i ∈ is, WFItem c i) : crashSearch c (render c is ++ rest) = crashSearch c rest := by
-  unfold render
-  rw [crashSearch_unlines, any_false_of_forall]
-  · simp
+/-- a batch of well-formed items, alone, is never a crash -/
+theorem crashSearch_render_nil (c : Compiler) (is : List Item) (h : ∀ i ∈ is, WFItem c i) :
+    crashSearch c (render c is) = false := by
+  unfold crashSearch render
+  apply crashSearchV_lines_false
+  · intro hc; subst hc
+    intro l hl
+    simp only [List.mem_flatMap] at hl
+    obtain ⟨i, hi, hl⟩ := hl
+    exact wf_lines_nl_javac (h i hi) l hl
   · intro l hl
     simp only [List.mem_flatMap] at hl
     obtain ⟨i, hi, hl⟩ := hl
-    exact (lineCrash_false (wf_lines_noCrash (h i hi) l hl)).1
+    exact wf_lines_noCrash (h i hi) l hl
 
 theorem stackOverflowSearch_render (is : List Item) (rest : List Char)
     (h : ∀ i ∈ is, WFItem .groovyc i) :
@@ -95,16 +295,7 @@ theorem stackOverflowSearch_render (is : List Item) (rest : List Char)
   · intro l hl
     simp only [List.mem_flatMap] at hl
     obtain ⟨i, hi, hl⟩ := hl
-    exact (lineCrash_false (wf_lines_noCrash (h i hi) l hl)).2 rfl
-
-theorem crashSearch_trace (c : Compiler) (t : Trace) (h : WFTrace c t) :
-    crashSearch c (renderTrace (some t)) = true := by
-  unfold renderTrace Trace.lines
-  have := crashSearch_unlines c (t.head :: t.frames) []
-  simp only [List.append_nil] at this
-  rw [this]
-  unfold WFTrace at h
-  simp [h]
+    exact lineCrashV_groovy_so _ l (wf_lines_noCrash (h i hi) l hl)
 
 theorem applyFilters_nil (s : List Char) : applyFilters [] s = s := rfl
 
@@ -114,12 +305,12 @@ theorem analyze_crash_iff (c : Compiler) (fs : List (List Char)) (is : List Item
     (analyze c fs (render c is ++ renderTrace ot)).crash = true ↔ ot ≠ none := by
   cases ot with
   | some t =>
-    have h1 : crashSearch c (render c is ++ renderTrace (some t)) = true := by
-      rw [crashSearch_render c is _ h]; exact crashSearch_trace c t (ht t rfl)
+    have h1 : crashSearch c (render c is ++ renderTrace (some t)) = true :=
+      crashSearchV_mono _ c _ _ (ht t rfl)
     simp [analyze, h1]
   | none =>
     have h1 : crashSearch c (render c is ++ renderTrace none) = false := by
-      rw [crashSearch_render c is _ h]; exact crashSearch_nil c
+      simp only [renderTrace, List.append_nil]; exact crashSearch_render_nil c is h
     have h2 : c = .groovyc → stackOverflowSearch (render c is ++ renderTrace none) = false := by
       intro hc; subst hc
       rw [stackOverflowSearch_render is _ h]; rfl
